@@ -23,7 +23,10 @@ def run(m):
         for e in m['edits']:
             p = os.path.join(d, e['file'])
             s = open(p).read()
-            if s.count(e['old']) != 1:
+            if e.get('all'):
+                if s.count(e['old']) < 1:
+                    return (m, 'SKIP', 'text does not occur in %s' % e['file'])
+            elif s.count(e['old']) != 1:
                 return (m, 'SKIP', 'anchor text occurs %d times in %s' % (s.count(e['old']), e['file']))
             s = s.replace(e['old'], e['new'])
             open(p, 'w').write(s)
